@@ -138,8 +138,23 @@ def traits():
     write_if_changed(os.path.join(OUT, "Traits.lean"), "\n".join(lines))
 
 
+def simd():
+    """the three ChaCha block back ends, translated to register-machine programs (tools/extract_simd.py)"""
+    import extract_simd
+    try:
+        extract_simd.generate(REPO, OUT, write_if_changed)
+    except extract_simd.TranslateError as e:
+        # no program: the proof obligation cannot be regenerated; the build fails on the undefined name and the check reports it
+        msg = str(e).replace("-/", "- /")
+        write_if_changed(os.path.join(OUT, "Simd.lean"), "import Urandom.Model.Simd\n/- tools/extract_simd.py could not translate the current source: %s -/\n"
+                         "namespace Urandom.Simd.Gen\nopen Urandom.Simd\ndef slp : Prog := translation_of_the_current_source_failed\n"
+                         "def sse2 : Prog := translation_of_the_current_source_failed\ndef avx2 : Prog := translation_of_the_current_source_failed\nend Urandom.Simd.Gen\n" % msg)
+
+
 def main():
     traits()
+    sys.path.insert(0, os.path.dirname(os.path.abspath(__file__)))
+    simd()
     if os.path.exists(os.path.join(os.path.dirname(os.path.abspath(__file__)), "extract_zig.py")):
         import extract_zig
         extract_zig.tables(REPO, OUT, write_if_changed)
